@@ -174,6 +174,19 @@ def sharing_cases(_=None):
     pairs += [(f'{lname} leaf shared==shared', mks(True, leaf), mks(True, leaf), True),
               (f'{lname} leaf distinct==distinct', mks(False, leaf), mks(False, leaf), True),
               (f'{lname} leaf shared!=distinct', mks(True, leaf), mks(False, leaf), False)]
+  # which earlier object a later alias points to (all three values equal): sharing differs
+  a1, a2 = fdl.Config(dags.node_fn(1), 1), fdl.Config(dags.node_fn(1), 1)
+  pairs += [('third alias redirected (Config)', fdl.Config(f, a1, [a2, a1]), fdl.Config(f, a1, [a2, a2]), False),
+            ('third alias redirected (list)', fdl.Config(f, {'a': (l := [1]), 'b': (m := [1]), 'c': l}),
+             fdl.Config(f, {'a': l, 'b': m, 'c': m}), False),
+            ('same aliasing, other objects', fdl.Config(f, a1, [a2, a1]),
+             fdl.Config(f, (b1 := fdl.Config(dags.node_fn(1), 1)), [fdl.Config(dags.node_fn(1), 1), b1]), True)]
+  # dict insertion order is ignored also when a node is shared across the entries
+  sh = fdl.Config(dags.node_fn(1), 2)
+  pairs += [('dict order, node shared across entries', fdl.Config(f, {'a': sh, 'b': sh}),
+             fdl.Config(f, {'b': sh, 'a': sh}), True),
+            ('dict order, list shared across entries', fdl.Config(f, {'a': (q := [3]), 'b': [q]}),
+             fdl.Config(f, {'b': [q], 'a': q}), True)]
   inner_s = {7}
   pairs.append(('set shared below a nested Config',
                 fdl.Config(f, fdl.Config(dags.node_fn(1), inner_s), inner_s),
